@@ -377,6 +377,34 @@ func c05Run(c *core.Ctx) {
 			}
 		}
 	}
+	// W: every witness of the corpus (each node of the tree is reached by one)
+	// through the reader (default answers plus every single deviation) and as a
+	// file, at limits around its own length: the three entry points agree on
+	// every format, not only on the curated inputs above
+	var wit uint64
+	for _, w := range corpus(c) {
+		if !c.Next() || c.Expired() {
+			continue
+		}
+		n := len(w.Data)
+		if n > 1<<16 {
+			continue
+		}
+		seenL := map[uint32]bool{}
+		for _, l := range []uint32{0, 3072, uint32(n), uint32(n + 1), uint32(n - 1), 64} {
+			if seenL[l] || (n == 0 && l == uint32(n-1)) {
+				continue
+			}
+			seenL[l] = true
+			explore1(w.Data, l, -1, false, 1, false, "W:corpus-witness")
+			fc := &core.Case{Kind: "c05file", In: w.Data, Limit: l, Ints: []int{0}}
+			c.R.Evals++
+			c.R.Transitions++
+			c.Check(fc)
+			wit++
+		}
+	}
+	c.Note("W.witness-limit-pairs", wit)
 	c.Note("executions", execs)
 	c.Note("choice-points", points)
 }
